@@ -441,7 +441,7 @@ def run_check(check: Check, tier: str, seed_value: int, replay: Optional[str] = 
                         sess.failures[bucket] = f
             if enum_flags:
                 enum_complete = all(enum_flags)
-        exhaustive = bool(enum_complete)
+        exhaustive = bool(enum_complete) and check.exhaustive_note(tier) is not None
 
         missing = [c for c in check.required_classes if not sess.stats.classes.get(c)]
         if missing and complete and not sess.failures:
@@ -455,7 +455,7 @@ def run_check(check: Check, tier: str, seed_value: int, replay: Optional[str] = 
     violations = []
     for bucket, f in sorted(sess.failures.items()):
         h = hashlib.sha1(bucket.encode()).hexdigest()[:12]
-        d = os.path.join(VERIF, 'replays', pid)
+        d = os.path.join(os.environ.get('VERIF_REPLAY_DIR') or os.path.join(VERIF, 'replays'), pid)
         os.makedirs(d, exist_ok=True)
         path = os.path.join(d, f"{h}.json")
         with open(path, 'w') as fh:
@@ -491,8 +491,9 @@ def run_check(check: Check, tier: str, seed_value: int, replay: Optional[str] = 
         property_id=pid, tier=tier, seed=seed_value, level=check.level, coverage=coverage,
         assumptions=check.assumptions, wall_s=round(time.time() - t0, 2), violations=len(violations),
     )
-    os.makedirs(os.path.join(VERIF, 'evidence'), exist_ok=True)
-    with open(os.path.join(VERIF, 'evidence', f'{pid}.json'), 'w') as fh:
+    evdir = os.environ.get('VERIF_EVIDENCE_DIR') or os.path.join(VERIF, 'evidence')
+    os.makedirs(evdir, exist_ok=True)
+    with open(os.path.join(evdir, f'{pid}.json'), 'w') as fh:
         json.dump(evidence, fh, indent=1, sort_keys=True)
         fh.write('\n')
 
@@ -501,5 +502,5 @@ def run_check(check: Check, tier: str, seed_value: int, replay: Optional[str] = 
           f"complete={complete} wall={time.time() - t0:.1f}s")
     for bucket, path, detail in violations:
         print(f"  bucket {bucket}: {detail[:600]}")
-        print(f"VIOLATION property={pid} replay={os.path.relpath(path, VERIF)}")
+        print(f"VIOLATION property={pid} replay={os.path.relpath(path, VERIF) if path.startswith(VERIF + os.sep) else path}")
     return EXIT_VIOLATION if violations else EXIT_OK
